@@ -397,6 +397,14 @@ def project(cfg, res):
                 c = cmp3(lhs, rhs, rtol=1e-9)
                 q["denslaw"] = c
                 q["nuczero"] = bool(prow["nucRate"][p] == 0)
+            # coarse form of the density law, judged on EVERY step (also across a change of the size classes, which conserves the third moment
+            # and not the number: a few per cent at most in every run of the suites): the number density does not double beyond what nucleation supplies
+            if prev is not None:
+                nprev = float(prow["precipitateDensity"][p])
+                supply = max(float(prow["nucRate"][p]), float(row["nucRate"][p])) * dt
+                q["densdouble"] = bool(nprev > 1e3 and float(row["precipitateDensity"][p]) > 2.0 * (nprev + supply))
+            else:
+                q["densdouble"] = False
             # growth sign vs critical radius (classes of the grid in force after the step)
             g = s["growth"][p]
             rc = float(row["Rcrit"][p])
